@@ -71,6 +71,12 @@ def gen_profile(rng, name, names, caps, runtimes, force_fit=True, ids=None):
             else:
                 req["%s:any" % n] = rng.randint(1, max(1, hi))
         strategies.append({"batch_size": 1, "runtime": rng.choice(runtimes), "resource_requirements": req})
+    if rng.random() < 0.12:
+        # a FIRST-listed strategy that no worker can ever hold, followed by strategies that fit: a policy must go on to
+        # the next strategy
+        n = rng.choice(sorted(caps[0]))
+        strategies.insert(0, {"batch_size": 1, "runtime": rng.choice(runtimes),
+                              "resource_requirements": {"%s:any" % n: max(c.get(n, 0) for c in caps) + 1}})
     return {"name": name, "execution_strategies": strategies}
 
 
